@@ -16,7 +16,7 @@ Record snap := {
   sn_unhealthy : Z; sn_sess : Z; sn_shut : Z }.
 
 Record pstep := { p_op : hop; p_res : Z; p_got : Z; p_snap : snap }.
-Record pcase := { p_fx : bool; p_cap : Z; p_steps : list pstep }.
+Record pcase := { p_fx : bool; p_fy : bool; p_cap : Z; p_steps : list pstep }.
 
 Definition b2z (b : bool) : Z := if b then 1 else 0.
 Definition zlen {A} (l : list A) : Z := Z.of_nat (length l).
@@ -84,7 +84,7 @@ Fixpoint first_diff (s : st) (l : list pstep) (n : nat) : option (nat * Z) :=
          if d =? 0 then first_diff s' r (S n) else Some (n, d)
   end.
 
-Definition check_case (c : pcase) : option (nat * Z) := first_diff (init (p_fx c) (p_cap c)) (p_steps c) 0.
+Definition check_case (c : pcase) : option (nat * Z) := first_diff (init (p_fx c) (p_fy c) (p_cap c)) (p_steps c) 0.
 
 Fixpoint mismatches_from (n : nat) (cs : list pcase) : list (nat * nat * Z) :=
   match cs with
@@ -100,4 +100,4 @@ Definition mismatches := mismatches_from 0.
 Fixpoint run_hops (s : st) (l : list hop) : st :=
   match l with [] => s | o :: r => run_hops (fst (run_hop s o)) r end.
 Definition model_after (c : pcase) (k : nat) : snap :=
-  model_snap (run_hops (init (p_fx c) (p_cap c)) (firstn k (map p_op (p_steps c)))).
+  model_snap (run_hops (init (p_fx c) (p_fy c) (p_cap c)) (firstn k (map p_op (p_steps c)))).
